@@ -348,6 +348,9 @@ def c10(c):
     units = [dict(name="c10_ilp32", srcs=[D + "c10_bulk.cpp"], build="asan0",
                   defs=EXC + ["CFG=vsbx_ilp32", "RLBOX_USE_STATIC_CALLS()=rlbox_noop_sandbox_lookup_symbol"])]
     runs = [dict(unit="c10_ilp32", label="c10_ilp32[p%d]" % p, args=[p]) for p in range(6)]
+    # bounded model backend that offers the optional grant/deny hooks (can_grant_deny_access), accepting or declining by policy
+    units.append(dict(name="c10_grantcap", srcs=[D + "c10_grantcap.cpp"], build="asan0", defs=EXC))
+    runs.append(dict(unit="c10_grantcap", label="c10_grantcap[ilp32g]"))
     if c.thorough:
         units.append(dict(name="c10_ilp32f", srcs=[D + "c10_bulk.cpp"], build="asan0",
                           defs=EXC + ["CFG=vsbx_ilp32f", "RLBOX_USE_STATIC_CALLS()=rlbox_noop_sandbox_lookup_symbol"]))
@@ -362,7 +365,8 @@ def c10(c):
              "region, null), memcmp (same source kinds), copy_and_verify_range, copy_and_verify_buffer_address, unverified_safe_pointer_because "
              "(element types char, short, int, long, long long, char16_t, float, double), copy_and_verify_string (both verifier flavours; "
              "terminator interior / in the last byte / missing up to the last byte), copy_memory_or_grant_access and _deny_access (copy path on the "
-             "model backend, hand-through path on the noop backend). Starts: null, first byte, last byte, end-e for e=0..16, interior. Extents: "
+             "model backend, hand-through path on the noop backend, and both on a bounded model backend that offers the grant/deny hooks and "
+             "accepts or declines by policy -- an illegal range must never come back as a pointer). Starts: null, first byte, last byte, end-e for e=0..16, interior. Extents: "
              "0..32, to-end-1/to-end/to-end+1, size+-1, 2^31, 2^32, 2^63, 2^64-1, 2^64/elsize+-k (byte counts wrapping 64 bits), random. Oracle: "
              "reference legality in 128-bit arithmetic (sandbox-side range non-null, non-empty, wholly inside one region; application-side range "
              "wholly outside every region): illegal => abort / allocation failure; legal => no abort and exactly the specified effect (region "
